@@ -12,9 +12,15 @@ ENGINES = [
      "kind_free_text": "check runner: subprocess shards, monitor counters, three-valued verdicts, "
                        "mechanism-keyed known findings, evidence and replay files"},
     {"name": "wf+ctl", "path": "vlib/wf.py vlib/wf_tasks.py vlib/ctl.py vlib/engine.py vlib/sched_explore.py",
-     "serves_properties": ["C01", "C06", "C08", "C09"],
+     "serves_properties": ["C01", "C05", "C06", "C08", "C09", "C12", "C26", "C27"],
      "kind_free_text": "program generator + set-valued reference interpreter + schedule controller that owns the "
                        "executor and the scheduler event queue (DFS / random / PCT / extreme choosers)"},
+    {"name": "hist", "path": "vlib/hist.py vlib/dbaudit.py", "serves_properties": ["C02", "C23"],
+     "kind_free_text": "editable task family + execution histories with a differential (empty backend) oracle; raw-SQL "
+                       "database auditor"},
+    {"name": "hist+faults", "path": "vlib/hist.py vlib/faults.py vlib/dbaudit.py", "serves_properties": ["C03", "C22"],
+     "kind_free_text": "commit-boundary process-death injection and statement-level transient-error injection through "
+                       "SQLAlchemy events, enumerated over every point of a workload"},
     {"name": "models", "path": "vlib/checks", "serves_properties": ["C13", "C14", "C15", "C17", "C18", "C19"],
      "kind_free_text": "offline checkers and relation monitors over the real pure functions"},
     {"name": "io", "path": "vlib/checks", "serves_properties": ["C16", "C34", "C35"],
@@ -96,6 +102,41 @@ reg("C37", "models", "invariant at a hook on TaskRegistry.add/rename + model-bas
     "The registry invariant is asserted after every registry mutation in exhaustive and random op sequences on a "
     "private registry (real @task / wraps_task) and on the global registry during scheduler workloads.",
     "Invariant stated on the hashes stored on held Task objects.")
+HIST_NOTE = ("Differential oracle: the same program on an empty backend (fresh Scheduler per execution, as the CLI "
+             "does). SQLite only. Held for the generated histories reported in the evidence.")
+reg("C02", "hist", "history + differential oracle (shared backend vs empty backend) with invocation trace",
+    "Histories of executions over an editable task family with body edits, version bumps, reverts, argument changes "
+    "and input-file rewrites; each execution's outcome is compared with an uncached run; invocation counts show that "
+    "replay and re-execution both occurred.", HIST_NOTE)
+reg("C03", "hist+faults", "fault enumeration (death at every commit, transient error at every statement, transfer) "
+    "followed by subtree edits and shallow reruns, differential oracle",
+    "Every commit boundary and SQL statement of the recording run of shallow-cached call trees is turned into a fault, "
+    "and every transfer path is exercised; afterwards each subtree task is edited and the rerun compared with the "
+    "empty-backend result.", HIST_NOTE, category="fault_enumeration")
+reg("C05", "wf+ctl", "differential monitor against the reference interpreter's context model, counterfactual "
+    "classification of findings", "Calls with equal arguments under different effective contexts, sequential and "
+    "concurrent, within and across executions, full and shallow; delivered values must be what each call computes "
+    "under its own context.", SCHED_NOTE)
+reg("C12", "wf+ctl", "trace + database monitors on failing programs over repeated executions",
+    "The propagated exception must be one the reference allows and must be the object raised by a task executed in "
+    "that very execution (never a replayed ErrorValue); the failing job and all ancestors must display FAILED.",
+    SCHED_NOTE)
+reg("C22", "hist+faults", "fault enumeration: process death at every commit (before/after) and a transient "
+    "OperationalError at every SQL statement, with referential audit, recovery runs and database comparison",
+    "Each fault point of each workload is injected in-process (validated against real os._exit subprocesses); the file "
+    "is audited, recovery runs (same / edited program) are compared with the empty-backend result, and retried "
+    "operations must leave the database identical to the fault-free one.", HIST_NOTE, category="fault_enumeration")
+reg("C23", "hist", "row-level differential between source and destination repositories over real transfers",
+    "Generated repositories are transferred by _sync_records and by export/JSON/import for several root selections; "
+    "rows on the closure of the roots are compared, idempotence and reverse transfer are checked, and the cache "
+    "clause is decided behaviourally after task edits.", HIST_NOTE)
+reg("C26", "wf+ctl", "differential monitor against an independent deep-merge/dotted-path context model",
+    "Generated job trees read the context at every job (get_context and expression-valued defaults) under nested "
+    "update_context overrides and root contexts from config string, context_file and run(context=).", SCHED_NOTE)
+reg("C27", "wf+ctl", "options captured at SUBMIT compared with an independent precedence model",
+    "Generated job trees with options at definition, call, export and with_export_options level, expression-valued "
+    "options, prov=False subtrees and cache=False runs; job.get_options() at the executor boundary must equal the model.",
+    SCHED_NOTE)
 
 
 def build():
